@@ -14,6 +14,10 @@ import random
 from . import common, oracles
 
 
+# hint sites outside GlGadgets' four inside this code region are probed with generic alternatives after run() (bin/check, common.Ctx.foreign)
+FOREIGN = (("verifyQueryRound", "verifyMerkleProofToCapWithCapIndex", "verifyInitialProof"), ("testdata",))
+
+
 def run(ctx):
     ctx.rule = ("(height, index, corruption kind, position, leaf width): all model scenarios for heights 4..6 (sampled in the quick tier), and for heights 7..12 "
                 "every kind x every position x seeded indices x leaf widths from {1,2,3,4,7,8,9,10,27,85,135,140}; distinct = distinct tuples")
